@@ -7,6 +7,7 @@ from ..gen_sat import (ref_parse, ref_cmp, ref_satisfied, last_binding, has_big_
 
 CLS_OP = "c12-nonstandard-operator"
 CLS_I32 = "c12-debversion-i32-digit-run"
+CLS_SV = "c12-set-version-strict-operator"
 
 def _triple(rec):
     """'e:u:r' from a record -> (epoch|None, upstream, revision|None)"""
@@ -96,7 +97,7 @@ class C12(Prop):
         typable = all(v is None or (v[0] in OPS and ref_parse(v[1]) is not None) for e in struct for (_, v) in e)
         if (r["ty"] == "1") != typable:
             return "harness could not build the typed field" if typable else "harness built a typed field from an unreadable structure"
-        keys = ["ll", "lr", "ly", "rt", "lc", "yc", "ym", "yp"]
+        keys = ["ll", "lr", "ly", "rt", "lc", "yc", "ym", "yp", "sv"]
         for k in keys:
             # a tree the tolerant reader produced together with errors is not a field: lr is
             # compared with the model (correspondence) but not judged
@@ -108,7 +109,7 @@ class C12(Prop):
             return None                      # outside the quantifier (not one of the five operators)
         look = last_binding(asg)
         want = "1" if ref_satisfied(struct, look) else "0"
-        for k in ("lc", "yc", "ym"):
+        for k in ("lc", "yc", "ym", "sv"):
             if r[k] != want:
                 return f"{k} = {r[k]}, Debian semantics say {want}"
         if asg:
@@ -191,6 +192,13 @@ class C12(Prop):
             vers = [v[1] for e in struct for (_, v) in e if v is not None] + [v for _, v in asg]
             if any(has_big_run(v) for v in vers):
                 return CLS_I32
+            r = rec_fields(impl)
+            clean = r.get("ne") == "0"      # a tolerant-reader tree with errors is not judged
+            panicking = [k for k in ("ll", "lr", "ly", "rt", "lc", "yc", "ym", "yp", "sv")
+                         if r.get(k) == "PANIC" and (k != "lr" or clean)]
+            if panicking == ["sv"] and not ("P" in r.get("le", "") and clean) and \
+               any(v is not None and v[0] in (">>", "<<") for e in struct for (_, v) in e):
+                return CLS_SV
             if any(v is not None and v[0] not in OPS for e in struct for (_, v) in e):
                 return CLS_OP
             return None
